@@ -3,6 +3,7 @@ package zonemodel
 import (
 	"fmt"
 	"math"
+	"path"
 	"strings"
 
 	"pgregory.net/rapid"
@@ -31,6 +32,8 @@ type GenOpts struct {
 	FixedOptions     bool // parser options as NewRR documents them: origin ".", default TTL 3600
 	OnlyGenerate     bool // mostly $GENERATE items (plus $ORIGIN / $TTL and a few records)
 	IncludeHeavy     bool // many $INCLUDE items, chains up to the depth limit
+	DeepChain        bool // every file that may still include one does: a spine down to the nesting limit
+	FlatIncludes     bool // all files in one directory (no directory parts in file names)
 }
 
 type zgen struct {
@@ -341,7 +344,7 @@ func (g *zgen) generate(st *State) Item {
 				gn.Stop += []int64{1, slack, slack / 2}[g.n(3, "hsl")]
 			}
 		}
-	case k == 19 && g.o.BigGenerate && typ != TA && typ != TAAAA:
+	case (k == 19 || k == 0) && g.o.BigGenerate && typ != TA && typ != TAAAA:
 		gn.Start = int64(g.n(3, "bs"))
 		gn.Step = int64(g.n(3, "bst") + 1)
 		gn.Stop = gn.Start + 65535*gn.Step + int64(g.n(int(gn.Step), "slack"))
@@ -449,8 +452,9 @@ func (g *zgen) generate(st *State) Item {
 }
 
 // items draws the items of one file under a copy of st; depth is the include depth of the file.
-func (g *zgen) items(st State, depth, max int) []Item {
+func (g *zgen) items(st State, depth, max int, cur string) []Item {
 	var out []Item
+	hasInclude := false
 	n := g.n(max, "nitems") + 1
 	for tries := 0; len(out) < n && tries < 3*n; tries++ {
 		k := g.n(100, "ik")
@@ -475,16 +479,24 @@ func (g *zgen) items(st State, depth, max int) []Item {
 		case k < 24 && !g.o.NoGenerate:
 			it = g.generate(&st)
 		case k < 32 && !g.o.NoIncludes && depth < MaxIncludeDepth && g.nfile < 12:
-			it = g.include(&st, depth)
+			it = g.include(&st, depth, cur)
 		default:
 			it = g.record(&st)
 		}
 		// advance the state exactly as the interpreter does; an item that is not valid here
 		// (e.g. a completed name exceeds 255 octets) is dropped
-		if err := g.advance(&st, &it, depth); err != nil {
+		if err := g.advance(&st, &it, depth, cur); err != nil {
 			continue
 		}
+		hasInclude = hasInclude || it.Kind == KInclude
 		out = append(out, it)
+	}
+	if g.o.DeepChain && !hasInclude && !g.o.NoIncludes && depth < MaxIncludeDepth {
+		// a spine down to the nesting limit
+		it := g.include(&st, depth, cur)
+		if err := g.advance(&st, &it, depth, cur); err == nil {
+			out = append(out, it)
+		}
 	}
 	return out
 }
@@ -508,7 +520,7 @@ func (g *zgen) dirArg(n MName) MName {
 }
 
 // advance mirrors interp.file for one item (without recording anything).
-func (g *zgen) advance(st *State, it *Item, depth int) error {
+func (g *zgen) advance(st *State, it *Item, depth int, cur string) error {
 	switch it.Kind {
 	case KRec:
 		_, err := st.Record(it, nil)
@@ -540,7 +552,7 @@ func (g *zgen) advance(st *State, it *Item, depth int) error {
 		// the nested file was generated under the right state; mirror the after-effects
 		st.OwnerUnknown = true
 		ip := &interp{z: g.z}
-		dollar, stated := ip.subtreeTTL(FSName(it.File), map[string]bool{})
+		dollar, stated := ip.subtreeTTL(ResolveInclude(cur, it.File), map[string]bool{})
 		if dollar {
 			st.U2 = true
 		}
@@ -553,21 +565,41 @@ func (g *zgen) advance(st *State, it *Item, depth int) error {
 
 var fileNames = []string{"inc", "db.sub", "zone-part", "more_records", "x", "in.db", "mx", "a.b.c"}
 
-func (g *zgen) include(st *State, depth int) Item {
+func (g *zgen) include(st *State, depth int, cur string) Item {
 	it := Item{Kind: KInclude}
 	sub := *st
+	// one hop in four is made through "$GENERATE n-n $$INCLUDE ..."
+	if !g.o.NoGenerate && g.p(25, "viagen") {
+		it.ViaGenerate = true
+		it.GenAt = int64(g.n(100, "genat"))
+		it.GenTimes = 1
+		if g.p(15, "gentwice") {
+			it.GenTimes = 2
+		}
+	}
 	if g.p(50, "incorigin") {
 		it.HasIncOrigin = true
-		if st.Origin != nil && g.p(50, "increl") {
+		switch {
+		case it.ViaGenerate:
+			// plain labels only: backslashes and '$' are special inside a $GENERATE line
+			n := wm.Name{[]byte([]string{"sub", "inc", "zone-a", "x_1", "WWW", "b"}[g.n(6, "vgl")])}
+			if st.Origin != nil && g.p(50, "increl") {
+				it.IncOrigin = RelName(n)
+			} else {
+				it.IncOrigin = AbsName(append(n, []byte("gen-inc"), []byte("example")))
+			}
+		case st.Origin != nil && g.p(50, "increl"):
 			it.IncOrigin = RelName(wm.Name{g.label()})
 			full := append(wm.Name(it.IncOrigin.Labels).Clone(), (*st.Origin)...)
 			if !full.Valid() {
 				it.IncOrigin = AbsName(g.absName(st.Origin))
 			}
-		} else {
+		default:
 			it.IncOrigin = AbsName(g.absName(st.Origin))
 		}
-		it.IncOrigin = g.dirArg(it.IncOrigin)
+		if !it.ViaGenerate {
+			it.IncOrigin = g.dirArg(it.IncOrigin)
+		}
 		o, err := st.Absolute(it.IncOrigin, false)
 		if err != nil {
 			it.HasIncOrigin = false
@@ -579,21 +611,38 @@ func (g *zgen) include(st *State, depth int) Item {
 	sub.Depth = depth + 1
 	g.nfile++
 	name := fmt.Sprintf("%s%d", fileNames[g.n(len(fileNames), "fn")], g.nfile)
-	if g.p(20, "slash") {
-		// the FS path is the same with a leading slash
-		it.File = "/" + name
-	} else {
+	// where the file lives, as seen from the including file: next to it, in a sub-directory, in
+	// the parent directory (if there is one), in a sibling directory, or named absolutely
+	dir := path.Dir(cur)
+	switch k := g.n(10, "where"); {
+	case k < 3 || g.o.FlatIncludes:
 		it.File = name
+	case k < 6:
+		it.File = dirNames[g.n(len(dirNames), "dn")] + "/" + name
+	case k == 6 && dir != ".":
+		it.File = "../" + name
+	case k == 7 && dir != ".":
+		it.File = "../" + dirNames[g.n(len(dirNames), "dn")] + "/" + name
+	case k == 8:
+		it.File = "./" + name
+	default:
+		it.File = "/" + dirNames[g.n(len(dirNames), "dn")] + "/" + name
+		if g.p(40, "absroot") {
+			it.File = "/" + name
+		}
 	}
+	resolved := ResolveInclude(cur, it.File)
 	// deeper files are smaller, but chains up to the limit are produced
 	max := 4
 	if depth >= 2 || g.o.IncludeHeavy {
 		max = 2
 	}
-	items := g.items(sub, depth+1, max)
-	g.z.Files[name] = items
+	items := g.items(sub, depth+1, max, resolved)
+	g.z.Files[resolved] = items
 	return it
 }
+
+var dirNames = []string{"sub", "zones", "d1", "d2", "inc.d", "a"}
 
 // GenZone draws a zone model that is valid (its denotation has no error).
 func GenZone(t *rapid.T, o GenOpts) *Zone {
@@ -603,6 +652,10 @@ func GenZone(t *rapid.T, o GenOpts) *Zone {
 	z := &Zone{Files: map[string][]Item{}}
 	g := &zgen{t: t, o: o, z: z}
 	z.FileName = []string{"zone.db", "db.example", "Z", "top-level.zone"}[g.n(4, "topname")]
+	if !o.FlatIncludes && g.p(50, "topdir") {
+		// the top-level file lives in a directory of the include FS
+		z.FileName = []string{"zones/", "d1/d2/", "a/", "sub/"}[g.n(4, "topdirn")] + z.FileName
+	}
 	st := State{OwnerUnknown: true}
 	switch k := g.n(10, "orik"); {
 	case k < 2:
@@ -625,7 +678,7 @@ func GenZone(t *rapid.T, o GenOpts) *Zone {
 		z.HasDefTTL, z.DefTTL = true, 3600
 		st.DefTTL = u32p(3600)
 	}
-	z.Items = g.items(st, 0, o.MaxItems)
+	z.Items = g.items(st, 0, o.MaxItems, z.FileName)
 	if len(o.LastOnlySamples) > 0 || len(o.BanSamples) > 0 {
 		replaceNonLast(z, o)
 	}
